@@ -197,13 +197,17 @@ def run_models(scns, drv, persists=None):
             jobs.append({'task': tcase, 'nregs': nregs[f],
                          'empty': len(S.file_disk_bytes(scn['files'][f])) == 0})
         persist = (persists[i] if persists else None) or []
-        cases.append({'kind': 'run', 'K': S.scenario_K(scn), 'jobs': jobs, 'persist': persist})
+        cases.append({'kind': 'run', 'K': S.scenario_K(scn), 'jobs': jobs, 'persist': persist,
+                      '_pos': {f: (seek_out[(i, f)]['model']['outs'][0]['apply'].get('pos', 0)
+                                   if (i, f) in seek_out else 0) for f in order}})
         interns.append(intern)
     out = []
-    for scn, intern, mo in zip(scns, interns, drv.run(cases)):
+    for scn, intern, case, mo in zip(scns, interns, cases, drv.run(cases)):
         m = mo['model']
         order, _ = catalog_order(scn)
-        o = {'order': order, 'persistOk': m['persistOk'], 'vals': intern.val}
+        o = {'order': order, 'persistOk': m['persistOk'], 'vals': intern.val,
+             'tcases': {scn['files'][f]['name']: jb['task'] for f, jb in zip(order, case['jobs'])},
+             'pos': {scn['files'][f]['name']: case['_pos'][f] for f in order}}
         if 'errs' in m:
             o['errs'] = m['errs']
         else:
@@ -236,3 +240,71 @@ def compare_run(scn, impl, mrun, check_stats=True):
         if impl['len'] != mst['results']:
             return f"len(results)={impl['len']} model results={mst['results']}"
     return None
+
+
+def py_spec_simple(tcase, vals):
+    """
+    The C01 prescription computed directly from the oracle tables of a task case, for
+    every unconstrained simple definition: {def id: [(ln, [values])]}.
+    """
+    intern = S.Interner()
+    intern.val = vals
+    out = {}
+    n = tcase['n']
+    for d in tcase['defs']:
+        if d['type'] != 'simple' or d['cons'] or d['id'] in out:
+            continue
+        sd = d['sd']
+        rows = []
+        for i in range(n):
+            if sd['hint'] is not None and not sd['hint'][i]:
+                continue
+            m = next((p[i] for p in sd['pats'] if p[i] is not None), None)
+            if m is None:
+                continue
+            if not sd['store']:
+                vs = []
+            elif not m['g']:
+                vs = [m['g0']]
+            else:
+                vs = m['g']
+            rows.append((i + 1, [intern.back(v) for v in vs]))
+        out[d['id']] = rows
+    return out
+
+
+def judge_run(rep, scn, impl, mrun, check_stats=True, what=''):
+    """
+    Whole-run verdict: (1) the C01 prescription directly, for every unconstrained simple
+    search identified by a unique tag on files searched from offset 0; (2) impl vs model.
+    Returns True if a failure was recorded.
+    """
+    if 'err' not in impl and 'errs' not in mrun:
+        uniq = unique_tag_simple_defs(scn)
+        for name, tcase in mrun['tcases'].items():
+            if mrun['pos'].get(name, 0) != 0:
+                continue
+            spec = py_spec_simple(tcase, mrun['vals'])
+            by_tag = {}
+            for r in impl['paths'].get(name, []):
+                by_tag.setdefault(r['tag'], []).append((r['ln'], r['iter']))
+            on_file = {d['id'] for d in tcase['defs']}
+            for tag, di in uniq.items():
+                if di not in spec or di not in on_file:
+                    continue
+                rep.count('spec_compared')
+                if by_tag.get(tag, []) != spec[di]:
+                    rep.fail('failing-input', scn,
+                             f"{what}path {name}, search tagged {tag!r}: reported "
+                             f"{by_tag.get(tag, [])[:5]} (n={len(by_tag.get(tag, []))}); the "
+                             f"lines it matches give {spec[di][:5]} (n={len(spec[di])})",
+                             impl=by_tag.get(tag, [])[:50], spec=spec[di][:50])
+                    return True
+    diff = compare_run(scn, impl, mrun, check_stats=check_stats)
+    if diff:
+        kind = 'failing-input' if ('err' in impl and 'errs' not in mrun) else \
+            'correspondence-broken'
+        rep.fail(kind, scn, what + diff, impl=impl if 'err' in impl else None,
+                 model=mrun.get('errs'))
+        return True
+    return False
